@@ -15,228 +15,13 @@ import (
 	"os"
 	"strings"
 
-	"github.com/33cn/chain33/common/crypto"
-	drivers "github.com/33cn/chain33/system/dapp"
 	"github.com/33cn/chain33/types"
-	"github.com/33cn/chain33/util"
 
 	"verifharness/internal/gen"
 	"verifharness/internal/vfexec"
 )
 
 var out = gen.NewOut()
-
-const fee = 1000000
-
-type sender struct {
-	priv crypto.PrivKey
-	addr string
-	key  []byte
-}
-
-type base struct {
-	block    *types.Block
-	storeTok string
-}
-
-type world struct {
-	n        *vfexec.Node
-	senders  []sender
-	bases    []base
-	addrsTok string
-	stateKs  [][]byte
-	nonce    int64
-}
-
-// executors a generated transaction may name
-var execers = []string{"vfa", "vfb", "vfc", "vfd", "user.vfa.x1", "user.vfb.y", "user.zzz", "vfz", "user.p.x.vfa"}
-var execW = []int{22, 34, 8, 12, 6, 8, 4, 3, 3}
-
-func realOf(e string) string { return string(types.GetRealExecName([]byte(e))) }
-
-func sameTime(e string) bool { r := realOf(e); return (r == "vfb" || r == "vfd") && !strings.HasPrefix(e, "user.p.") }
-
-func (w *world) ownKeys(e string) [][]byte {
-	var ks [][]byte
-	for i := 0; i < 3; i++ {
-		ks = append(ks, []byte(fmt.Sprintf("mavl-%s-k%d", e, i)))
-	}
-	return ks
-}
-
-func (w *world) depositKey(owner string, e string) []byte {
-	return []byte("mavl-" + owner + "-exec-" + drivers.ExecAddress(e) + ":" + w.senders[0].addr)
-}
-
-func (w *world) buildUniverse() {
-	seen := map[string]bool{}
-	add := func(k []byte) {
-		if !seen[string(k)] {
-			seen[string(k)] = true
-			w.stateKs = append(w.stateKs, k)
-		}
-	}
-	for _, e := range execers[:6] {
-		for _, k := range w.ownKeys(e) {
-			add(k)
-		}
-		add(w.depositKey("coins-bty", e))
-		add(w.depositKey("vfc-tok", e))
-	}
-	add([]byte("mavl-vfc-fr-k0"))
-	add([]byte("mavl-vfd-fr-k0"))
-	add([]byte("mavl-vfc-fr-k1"))
-	add([]byte("nodash"))
-	add([]byte("mavl-nodash"))
-	add([]byte("mavlx-vfa-k0"))
-	for _, s := range w.senders {
-		add(s.key)
-	}
-}
-
-func (w *world) storeToken(stateHash []byte) string {
-	vals, err := w.n.Mock.GetAPI().StoreGet(&types.StoreGet{StateHash: stateHash, Keys: w.stateKs})
-	if err != nil {
-		panic(err)
-	}
-	var parts []string
-	for i, v := range vals.Values {
-		if len(v) == 0 {
-			continue
-		}
-		parts = append(parts, vfexec.Hx(w.stateKs[i])+"="+vfexec.AcctRender(w.stateKs[i], v))
-	}
-	if len(parts) == 0 {
-		return "-"
-	}
-	return strings.Join(parts, ",")
-}
-
-func op(kind, k, v string) vfexec.Op { return vfexec.Op{Kind: kind, K: []byte(k), V: []byte(v)} }
-
-func (w *world) setup() {
-	n := w.n
-	w.senders = []sender{{priv: n.GenKey, addr: n.GenAddr, key: vfexec.AcctKey(n.GenAddr)}}
-	for i := 1; i <= 2; i++ {
-		p, a := vfexec.DetKey(i)
-		w.senders = append(w.senders, sender{priv: p, addr: a, key: vfexec.AcctKey(a)})
-	}
-	w.buildUniverse()
-	var ad []string
-	names := append([]string{}, execers...)
-	names = append(names, "coins", "none")
-	for _, e := range names {
-		ad = append(ad, vfexec.Hx([]byte(e))+"="+vfexec.Hx([]byte(drivers.ExecAddress(e))))
-	}
-	w.addrsTok = strings.Join(ad, ",")
-	writes := [][][3]string{
-		{},
-		{{"vfa", "mavl-vfa-k0", "b0"}, {"vfa", "mavl-vfa-k1", "b1"}, {"vfb", "mavl-vfb-k0", "b2"}, {"vfc", "mavl-vfc-fr-k0", "b3"}},
-		{{"vfa", "mavl-vfa-k2", "c0"}, {"vfb", "mavl-vfb-k1", "c1"}, {"vfb", "mavl-vfb-k2", "c2"}, {"vfd", "mavl-vfd-k0", "c3"},
-			{"user.vfa.x1", "mavl-user.vfa.x1-k0", "c4"}, {"vfd", "mavl-vfd-fr-k0", "c5"}},
-	}
-	for _, ws := range writes {
-		txs := []*types.Transaction{
-			util.CreateCoinsTx(n.Cfg, n.GenKey, w.senders[1].addr, 2*fee+fee/2),
-			util.CreateCoinsTx(n.Cfg, n.GenKey, w.senders[2].addr, fee/2),
-		}
-		for _, x := range ws {
-			w.nonce++
-			txs = append(txs, n.MakeTx(vfexec.TxSpec{Priv: n.GenKey, Execer: x[0], Fee: fee, Nonce: w.nonce,
-				ExecOps: []vfexec.Op{op("S", x[1], x[2])}}))
-		}
-		b, det, err := n.CommitBlock(n.Genesis, txs)
-		if err != nil {
-			panic(err)
-		}
-		if len(det.Receipts) != len(txs) {
-			panic("setup tx dropped")
-		}
-		for _, r := range det.Receipts {
-			if r.Ty != types.ExecOk {
-				panic("setup tx failed")
-			}
-		}
-		w.bases = append(w.bases, base{block: b, storeTok: w.storeToken(b.StateHash)})
-	}
-}
-
-// ---------------------------------------------------------------------------- running a block
-
-type result struct {
-	panicked bool
-	receipts []*types.Receipt
-	obs      [][]string
-	line     string
-}
-
-func (w *world) senderOf(acctKey []byte) *sender {
-	for i := range w.senders {
-		if string(w.senders[i].key) == string(acctKey) {
-			return &w.senders[i]
-		}
-	}
-	return nil
-}
-
-// run executes units on base bi through the real executor and emits the op line.
-func (w *world) run(bi int, units []vfexec.Unit) *result {
-	var txs []*types.Transaction
-	var toks []string
-	for ui := range units {
-		u := &units[ui]
-		var specs []vfexec.TxSpec
-		for _, t := range u.Txs {
-			s := w.senderOf(t.AcctKey)
-			if s == nil {
-				return nil
-			}
-			w.nonce++
-			specs = append(specs, vfexec.TxSpec{Priv: s.priv, Execer: string(t.Execer), Fee: fee, Nonce: w.nonce,
-				ExecOps: t.ExecOps, LocOps: t.LocOps})
-		}
-		if u.Group {
-			g, err := w.n.MakeGroup(specs)
-			if err != nil {
-				panic(err)
-			}
-			for i, tx := range g {
-				u.Txs[i].Fee = tx.Fee
-			}
-			txs = append(txs, g...)
-		} else {
-			tx := w.n.MakeTx(specs[0])
-			u.Txs[0].Fee = tx.Fee
-			txs = append(txs, tx)
-		}
-		toks = append(toks, u.Token())
-	}
-	b := w.bases[bi]
-	vfexec.ResetRecorder()
-	rs, e := w.n.ExecTxList(b.block.StateHash, b.block.Height+1, b.block.BlockTime+1, txs)
-	opline := fmt.Sprintf("blk 11111 b%d %s %s - %s", bi, w.addrsTok, b.storeTok, strings.Join(toks, " "))
-	res := &result{}
-	switch {
-	case e == "blockpanic":
-		res.panicked = true
-		res.line = "blockpanic"
-	case e != "":
-		res.panicked = true
-		res.line = e
-	default:
-		var rr, oo []string
-		for i, r := range rs.Receipts {
-			rr = append(rr, vfexec.RenderReceipt(r))
-			o := vfexec.Observations(txs[i])
-			res.obs = append(res.obs, o)
-			oo = append(oo, "["+strings.Join(o, ",")+"]")
-		}
-		res.receipts = rs.Receipts
-		res.line = strings.Join(rr, " ") + " | " + strings.Join(oo, " ")
-	}
-	out.Op(opline, res.line)
-	return res
-}
 
 func feeOnlyUnit(u vfexec.Unit) vfexec.Unit {
 	v := vfexec.Unit{Group: u.Group}
@@ -264,7 +49,9 @@ func kvString(r *types.Receipt) string {
 	return strings.Join(s, ",")
 }
 
-func isLocalObsOp(o vfexec.Op) bool { return o.Kind == "LG" || o.Kind == "LL" || o.Kind == "LS" || o.Kind == "LH" }
+func isLocalObsOp(o vfexec.Op) bool {
+	return o.Kind == "LG" || o.Kind == "LL" || o.Kind == "LS" || o.Kind == "LH"
+}
 
 // readKinds lists, for one transaction, whether its i-th observation is a local ("L") or state ("S") read.
 func readKinds(t vfexec.TxDesc) []string {
@@ -293,15 +80,15 @@ func readKinds(t vfexec.TxDesc) []string {
 }
 
 // check evaluates the C11 predicate for block `units` on base bi.
-func (w *world) check(bi int, units []vfexec.Unit) {
-	a := w.run(bi, cloneUnits(units))
+func check(w *vfexec.World, bi int, units []vfexec.Unit) {
+	a := w.Run(bi, cloneUnits(units))
 	out.Stat("blocks", 1)
 	if a == nil {
 		out.Stat("bad_replay_line", 1)
 		return
 	}
-	if a.panicked {
-		out.Stat("block_"+a.line, 1)
+	if a.Panicked {
+		out.Stat("block_"+a.Line, 1)
 		return
 	}
 	// flatten
@@ -315,7 +102,7 @@ func (w *world) check(bi int, units []vfexec.Unit) {
 	}
 	out.Stat("txs", int64(len(flat)))
 	failedUnit := map[int]bool{}
-	for i, r := range a.receipts {
+	for i, r := range a.Receipts {
 		switch {
 		case vfexec.Failed(r):
 			failedUnit[unitOf[i]] = true
@@ -343,10 +130,10 @@ func (w *world) check(bi int, units []vfexec.Unit) {
 		}
 		bu := cloneUnits(units)
 		bu[ui] = feeOnlyUnit(units[ui])
-		b := w.run(bi, bu)
+		b := w.Run(bi, bu)
 		out.Stat("fee_only_runs", 1)
 		detail := fmt.Sprintf("base=%d unit=%d block=%s", bi, ui, tokens(units))
-		if b.panicked {
+		if b.Panicked {
 			// the block without the failed unit's program panics although the original did not
 			out.Pred("C11|"+site+"|fee-only-run-panics", detail)
 			continue
@@ -357,16 +144,16 @@ func (w *world) check(bi int, units []vfexec.Unit) {
 				continue
 			case unitOf[i] == ui:
 				// only the fee may remain of the failed unit
-				if kvString(a.receipts[i]) != kvString(b.receipts[i]) || a.receipts[i].Ty != b.receipts[i].Ty {
+				if kvString(a.Receipts[i]) != kvString(b.Receipts[i]) || a.Receipts[i].Ty != b.Receipts[i].Ty {
 					out.Pred("C11|"+site+"|failed-receipt-keeps-writes", detail+fmt.Sprintf(" tx=%d", i))
 				}
 			default:
-				ra, rb := vfexec.RenderReceipt(a.receipts[i]), vfexec.RenderReceipt(b.receipts[i])
+				ra, rb := vfexec.RenderReceipt(a.Receipts[i]), vfexec.RenderReceipt(b.Receipts[i])
 				if ra != rb {
 					out.Pred("C11|"+site+"|later-receipt-differs", detail+fmt.Sprintf(" tx=%d a=%s b=%s", i, ra, rb))
 					continue
 				}
-				oa, ob := a.obs[i], b.obs[i]
+				oa, ob := a.Obs[i], b.Obs[i]
 				kinds := readKinds(flat[i])
 				if len(oa) != len(ob) {
 					out.Pred("C11|"+site+"|later-read-count-differs", detail+fmt.Sprintf(" tx=%d", i))
@@ -400,7 +187,7 @@ func tokens(us []vfexec.Unit) string {
 // ---------------------------------------------------------------------------- generation
 
 type genr struct {
-	w   *world
+	w   *vfexec.World
 	r   *gen.Rand
 	val int
 }
@@ -415,20 +202,20 @@ func (g *genr) value() []byte {
 
 func (g *genr) writeKey(e string) []byte {
 	w := g.w
-	switch g.r.Pick(70, 8, 6, 6, 4, 6) {
+	switch g.r.Pick(82, 6, 5, 3, 2, 2) {
 	case 0:
-		ks := w.ownKeys(e)
+		ks := w.OwnKeys(e)
 		return ks[g.r.Intn(len(ks))]
 	case 1:
 		return [][]byte{[]byte("mavl-vfc-fr-k0"), []byte("mavl-vfd-fr-k0"), []byte("mavl-vfc-fr-k1")}[g.r.Intn(3)]
 	case 2:
-		return w.depositKey([]string{"coins-bty", "vfc-tok"}[g.r.Intn(2)], e)
+		return w.DepositKey([]string{"coins-bty", "vfc-tok"}[g.r.Intn(2)], e)
 	case 3:
-		o := execers[g.r.Intn(6)]
-		ks := w.ownKeys(o)
+		o := vfexec.Execers[g.r.Intn(6)]
+		ks := w.OwnKeys(o)
 		return ks[g.r.Intn(len(ks))]
 	case 4:
-		return w.depositKey("coins-bty", execers[g.r.Intn(6)])
+		return w.DepositKey("coins-bty", vfexec.Execers[g.r.Intn(6)])
 	default:
 		return [][]byte{[]byte("nodash"), []byte("mavl-nodash"), []byte("mavlx-vfa-k0"), nil}[g.r.Intn(4)]
 	}
@@ -436,23 +223,23 @@ func (g *genr) writeKey(e string) []byte {
 
 func (g *genr) readKey(e string) []byte {
 	if g.r.Chance(3, 5) {
-		ks := g.w.ownKeys(e)
+		ks := g.w.OwnKeys(e)
 		return ks[g.r.Intn(len(ks))]
 	}
-	return g.w.stateKs[g.r.Intn(len(g.w.stateKs))]
+	return g.w.StateKs[g.r.Intn(len(g.w.StateKs))]
 }
 
 func (g *genr) localKey(e string) []byte {
-	names := []string{realOf(e), e, "vfb", "vfd"}
+	names := []string{vfexec.RealOf(e), e, "vfb", "vfd"}
 	nm := names[g.r.Pick(60, 10, 20, 10)]
 	return []byte(fmt.Sprintf("LODB-%s-k%d", nm, g.r.Intn(3)))
 }
 
 func (g *genr) localWriteKey(e string) []byte {
 	if g.r.Chance(1, 150) {
-		return [][]byte{[]byte("LODB-vfa-k0"), []byte("LODX-vfb-k0"), []byte("LODB-" + realOf(e) + "-"), []byte("LODB")}[g.r.Intn(4)]
+		return [][]byte{[]byte("LODB-vfa-k0"), []byte("LODX-vfb-k0"), []byte("LODB-" + vfexec.RealOf(e) + "-"), []byte("LODB")}[g.r.Intn(4)]
 	}
-	nm := realOf(e)
+	nm := vfexec.RealOf(e)
 	if g.r.Chance(1, 5) {
 		nm = e
 	}
@@ -464,9 +251,9 @@ func (g *genr) localPrefix(e string) []byte {
 	case 0:
 		return []byte("LODB-vf") // every synthetic executor's local area (the node's own LODB-coins-… data stays out)
 	case 1:
-		return []byte("LODB-" + realOf(e) + "-k1")
+		return []byte("LODB-" + vfexec.RealOf(e) + "-k1")
 	default:
-		return []byte("LODB-" + realOf(e) + "-")
+		return []byte("LODB-" + vfexec.RealOf(e) + "-")
 	}
 }
 
@@ -502,7 +289,7 @@ func (g *genr) execOps(e string) []vfexec.Op {
 }
 
 func (g *genr) localOps(e string) []vfexec.Op {
-	if !sameTime(e) && g.r.Chance(2, 3) {
+	if !vfexec.SameTime(e) && g.r.Chance(2, 3) {
 		return nil
 	}
 	var ops []vfexec.Op
@@ -534,13 +321,13 @@ func (g *genr) localOps(e string) []vfexec.Op {
 }
 
 func (g *genr) tx(inGroup bool) vfexec.TxDesc {
-	e := execers[g.r.Pick(execW...)]
+	e := vfexec.Execers[g.r.Pick(vfexec.ExecW...)]
 	for inGroup && strings.HasPrefix(e, "user.p.") {
 		// a group mixing para and main-chain executors is rejected as a whole (ErrTxGroupParaMainMixed, C17's domain)
-		e = execers[g.r.Pick(execW...)]
+		e = vfexec.Execers[g.r.Pick(vfexec.ExecW...)]
 	}
-	s := g.w.senders[g.r.Pick(84, 11, 5)]
-	return vfexec.TxDesc{AcctKey: s.key, Fee: fee, Execer: []byte(e), ExecOps: g.execOps(e), LocOps: g.localOps(e)}
+	s := g.w.Senders[g.r.Pick(84, 11, 5)]
+	return vfexec.TxDesc{AcctKey: s.Key, Fee: vfexec.Fee, Execer: []byte(e), ExecOps: g.execOps(e), LocOps: g.localOps(e)}
 }
 
 func (g *genr) block() []vfexec.Unit {
@@ -568,7 +355,7 @@ func (g *genr) block() []vfexec.Unit {
 
 // ---------------------------------------------------------------------------- replay
 
-func (w *world) replay(lines []string) {
+func replay(w *vfexec.World, lines []string) {
 	for _, l := range lines {
 		f := strings.Fields(l)
 		if len(f) < 7 || f[0] != "blk" || !strings.HasPrefix(f[2], "b") {
@@ -576,7 +363,7 @@ func (w *world) replay(lines []string) {
 			continue
 		}
 		var bi int
-		if _, err := fmt.Sscanf(f[2], "b%d", &bi); err != nil || bi < 0 || bi >= len(w.bases) {
+		if _, err := fmt.Sscanf(f[2], "b%d", &bi); err != nil || bi < 0 || bi >= len(w.Bases) {
 			out.Op(l, "bad-op")
 			continue
 		}
@@ -594,24 +381,24 @@ func (w *world) replay(lines []string) {
 			out.Op(l, "bad-op")
 			continue
 		}
-		w.check(bi, us)
+		check(w, bi, us)
 	}
 }
 
 func main() {
 	defer out.Flush()
 	vfexec.Quiet()
-	w := &world{n: vfexec.NewNode(), nonce: 1000}
-	defer w.n.Close()
-	w.setup()
+	w := &vfexec.World{N: vfexec.NewNode(), Nonce: 1000, Emit: out.Op}
+	defer w.N.Close()
+	w.Setup()
 	if lines := gen.ReplayLines(); lines != nil {
-		w.replay(lines)
+		replay(w, lines)
 		return
 	}
 	g := &genr{w: w, r: gen.New(gen.Seed())}
 	nblocks := gen.Scale(1500, 40000)
 	for i := 0; i < nblocks; i++ {
-		w.check(g.r.Intn(len(w.bases)), g.block())
+		check(w, g.r.Intn(len(w.Bases)), g.block())
 	}
 	fmt.Fprintln(os.Stderr, "done")
 }
